@@ -406,6 +406,11 @@ pub fn extremes_uncached(f: Family, d: &[u8]) -> Vec<Vec<u8>> {
                 "{\"version\":{\"name\":\"x\",\"protocol\":1},\"players\":{\"max\":1,\"online\":1,\"sample\":[1]}}",
                 "{\"version\":{\"name\":\"x\",\"protocol\":1},\"players\":{\"max\":1,\"online\":1,\"sample\":[{\"name\":1}]}}",
                 "{\"version\":\"x\",\"players\":[]}",
+                // well-formed statuses announcing huge counts (a count is a number, not a reason to allocate)
+                "{\"version\":{\"name\":\"x\",\"protocol\":1},\"players\":{\"max\":4294967295,\"online\":4294967295,\"sample\":[]}}",
+                "{\"version\":{\"name\":\"x\",\"protocol\":1},\"players\":{\"max\":20,\"online\":2147483647,\"sample\":[]}}",
+                "{\"version\":{\"name\":\"x\",\"protocol\":1},\"players\":{\"max\":20,\"online\":100000000,\"sample\":[{\"name\":\"a\",\"id\":\"b\"}]}}",
+                "{\"version\":{\"name\":\"x\",\"protocol\":2147483647},\"players\":{\"max\":3000000,\"online\":3000000}}",
                 "\u{feff}{}",
             ] {
                 let mut body = vec![0u8];
